@@ -6,10 +6,15 @@
    `run h` is the model state (Model/Core.v) after history h; `spec_run h`,
    `attach_order h`, `count_attaches h`, `header_sizes h`, `e_cell_at`,
    `wf_hist` are the history spec (Spec/History.v), written without the model.
-   wf_hist h: every op denotes a Go call (fresh row variables, existing rows)
-   and a pre-built row is attached at most once (DESIGN section 13.1); outside
-   it the model is not claimed to follow the Go code.  Only c02_nrows (and so
-   c02_inv) needs the guard in its proof. *)
+   wf_hist h: every op denotes a Go call (fresh row variables, existing rows),
+   a pre-built row is attached to this table at most once, and no row of this
+   table is handed to ANOTHER table's AddRow (DESIGN section 13.1: one *Row
+   object serves one table).  A row that was in another table BEFORE it joins
+   this one is inside wf_hist (op OtherAddRow on a still-detached row): the
+   theorems speak for the table a row was added to last.  What the first
+   table shows after another one took its row (the row reports its position
+   there, later cells widen that table) is modelled and checked against the
+   code by the correspondence, but is not claimed. *)
 From Tab Require Import Base.Ops Model.Core Spec.History Proofs.CoreInv Proofs.CoreSim Proofs.CoreObs.
 
 (* The invariant over all well-formed histories: the row list is the attach
@@ -49,7 +54,7 @@ Print Assumptions c02_order.
    not just >=). *)
 Theorem c02_ncols : forall (A : Type) (h : list (op A)), wf_hist h ->
   ncols (run h) = list_max (header_sizes h ++ map row_size (all_rows (run h))).
-Proof. exact (fun A h _ => @core_ncols A h). Qed.
+Proof. exact (fun A => @core_ncols A). Qed.
 Print Assumptions c02_ncols.
 
 (* CellAt(r,c) is exactly the c-th cell of the r-th row, else NoSuchCell (Err)
@@ -71,7 +76,7 @@ Theorem c02_cell_at : forall (A : Type) (h : list (op A)) (r c : Z), wf_hist h -
      else Err)
   /\ (forall rn x, cell_at (run h) r c = Ok (rn, x) ->
         Z.of_nat (fst (cell_location (rn, x))) = r /\ Z.of_nat (snd (cell_location (rn, x))) = c).
-Proof. exact (fun A h r c _ => @core_cell_at A h r c). Qed.
+Proof. exact (fun A h r c W => conj (proj1 (@core_cell_at A h r c)) (proj2 (@core_cell_at A h r c) W)). Qed.
 Print Assumptions c02_cell_at.
 
 (* ... and against the history: the cell returned carries the item the
@@ -88,13 +93,13 @@ Print Assumptions c02_cell_at_history.
 (* Column(n) is non-nil exactly for 0 <= n <= NColumns(); never a panic. *)
 Theorem c02_column : forall (A : Type) (h : list (op A)) (n : Z), wf_hist h ->
   column_exists (run h) n = Ok ((0 <=? n) && (n <=? Z.of_nat (ncols (run h))))%Z.
-Proof. exact (fun A h n _ => @core_column A h n). Qed.
+Proof. exact (fun A => @core_column A). Qed.
 Print Assumptions c02_column.
 
 (* A row reports its own 1-based position. *)
 Theorem c02_row_location : forall (A : Type) (h : list (op A)) i tr, wf_hist h ->
   nth_error (all_rows (run h)) i = Some tr -> row_location tr = (S i, 0).
-Proof. exact (fun A h i tr _ => @core_row_location A h i tr). Qed.
+Proof. exact (fun A => @core_row_location A). Qed.
 Print Assumptions c02_row_location.
 
 (* Mutating the row list handed to the caller changes nothing of the table.
@@ -119,12 +124,12 @@ Print Assumptions c02_view_wf.
    on the model, exactly the dump the history spec expects: the check's oracle
    accepts the model on all histories. *)
 Theorem c02_dump_expected : forall h : list (op N), wf_hist h -> model_dump h = spec_dump h.
-Proof. exact (fun h _ => model_dump_expected h). Qed.
+Proof. exact model_dump_expected. Qed.
 Print Assumptions c02_dump_expected.
 
 (* the same for the single dump taken after the last op of a long history *)
 Theorem c02_dump_last_expected : forall h : list (op N), wf_hist h -> model_dump_last h = spec_dump_last h.
-Proof. exact (fun h _ => model_dump_last_expected h). Qed.
+Proof. exact model_dump_last_expected. Qed.
 Print Assumptions c02_dump_last_expected.
 
 (* non-vacuity: the D2 history, a separator, a pre-built row attached late, a
@@ -139,6 +144,21 @@ Example c02_example :
   /\ cell_at (run h) 3 2 = Ok (3, mkCell 10%N 2)
   /\ cell_at (run h) 2 1 = Err /\ cell_at (run h) 0 1 = Err /\ cell_at (run h) 1 4 = Err
   /\ column_exists (run h) 3 = Ok true /\ column_exists (run h) 4 = Ok false.
+Proof.
+  cbv zeta. split; [apply wf_histb_sound; vm_compute; reflexivity|].
+  repeat split; vm_compute; reflexivity.
+Qed.
+
+(* a row that another table held before joins this one: everything holds for
+   this table (the row's 4th-row past in the other table leaves no trace) *)
+Example c02_example_two_tables :
+  let h : list (op N) :=
+    [NewRow 1; RowAdd (RName 1) 7%N; OtherAddRow (RName 1) 4; RowAdd (RName 1) 8%N; AddSeparator; AddRow 1;
+     RowAdd (RName 1) 9%N] in
+  wf_hist h
+  /\ nrows (run h) = 2 /\ ncols (run h) = 3
+  /\ map row_location (all_rows (run h)) = [(1, 0); (2, 0)]
+  /\ cell_at (run h) 2 3 = Ok (2, mkCell 9%N 3).
 Proof.
   cbv zeta. split; [apply wf_histb_sound; vm_compute; reflexivity|].
   repeat split; vm_compute; reflexivity.
